@@ -36,6 +36,10 @@ BUILD_STUBS = [
      'params': [['uid', 'pk', None], ['args', 'va', None]]},
     {'name': 'n5', 'kind': 'inst',
      'params': [['uid', 'pk', None], ['x', 'pk', 'v']]},
+    # same as n0 except for one parameter: update_callable target
+    {'name': 'n0b', 'kind': 'func',
+     'params': [['uid', 'pk', None], ['x', 'pk', 'v'], ['y', 'pk', 'v'],
+                ['w', 'pk', 'v']]},
     # tags attached by annotation (and a cold type-hints cache per run)
     {'name': 'n6', 'kind': 'func',
      'params': [['uid', 'pk', None], ['x', 'pk', 'v', ['T1']],
@@ -49,6 +53,7 @@ SLOTS = {
     'n4': ([], True, False),
     'n5': (['x'], False, False),
     'n6': (['x', 'y', 'k'], False, False),
+    'n0b': (['x', 'y', 'w'], False, False),
 }
 POSITIONAL = {'n1': ['uid', 'x']}  # positional-only names, in order
 
